@@ -44,7 +44,7 @@ PROFILE_B = gen.profile(
     **dict(COMMON, w_stmt=dict(raise_=0.15, read=2.5, with_=2.2, syncitem=0.5))
 )
 HOWS = ["call", "value", "yielded", "yielded_value"]
-MONITORS = ("refeq", "restore")
+MONITORS = ("refeq", "restore", "peek")
 
 
 def _shrunk(prog, how, pol, cs, oracle):
